@@ -25,8 +25,8 @@
 (*     Machine "value": one state per instance holding the oracle tables (no steps).        *)
 (* (P) invariants at the bottom.  Emit prints, for every state in which the real code is    *)
 (*     observable, what it has to return (pipeline A).                                      *)
-(* Batch record: POMDP fields + controller fields + D (history depth), machs, full (1 iff   *)
-(* the uncut value system is also to be solved), ghost.                                     *)
+(* Batch record: POMDP fields + controller fields + lst (state list flags), D (history       *)
+(* depth), machs, full (1 iff the uncut value system is also to be solved), ghost.           *)
 EXTENDS FSC, Json, IOUtils
 
 Batch == JsonDeserialize(IOEnv.BATCH_FILE)
@@ -82,9 +82,9 @@ Observe(o) ==
   /\ pa' = 0
   /\ UNCHANGED <<iid, mach, pc, vt>>
 
-Next ==
-  \/ \E a \in Ac(M) : Act(a)
-  \/ \E o \in Ob(M) : Observe(o)
+ActStep == \E a \in Ac(M) : Act(a)
+ObserveStep == \E o \in Ob(M) : Observe(o)
+Next == ActStep \/ ObserveStep
 Spec == Init /\ [][Next]_vars
 
 \* ------------------------------------------------------------------ emission (pipeline A)
@@ -164,7 +164,7 @@ CutOnlyMattersWithGhosts ==
   (mach = "value" /\ M.full = 1 /\ ~GhostMatters(M)) =>
      VTable(M, vt.cut) = VTable(M, vt.full)
 \* instance filter
-InstancesWellFormed == PWellFormed(M) /\ CWellFormed(M) /\ M.GN < M.GD
+InstancesWellFormed == PWellFormed(M) /\ CWellFormed(M) /\ ListClosed(M) /\ M.GN < M.GD
 \* NOT a property: the unconditioned update agrees with the controller's semantics.  Listed only by
 \* the model-level demonstration (expected to be violated when two nodes have different action rows).
 NaiveAgrees == agn = ag
